@@ -300,6 +300,18 @@ impl Acc {
 // A property sub-check
 // ------------------------------------------------------------------------------------------
 
+/// Run a check under the midnight guard: several properties read the current date (today, the default year, the
+/// date part of every time); a failure of a case during which the UTC date changed is not believed - the case is
+/// counted as skipped (the next run repeats it within one day).
+pub fn guarded_check<P: Prop>(prop: &P, w: &mut Worker, case: &P::Case) -> Verdict {
+    let day0 = chrono::Utc::now().date_naive();
+    let v = prop.check(w, case);
+    if v.is_fail() && chrono::Utc::now().date_naive() != day0 {
+        return Verdict::skip("date changed during the case", v.rendered);
+    }
+    v
+}
+
 pub trait Prop: Sync {
     type Case: Debug + Clone + Serialize + DeserializeOwned + Send + Sync + 'static;
     /// name of the sub-check (unique within the property)
@@ -614,7 +626,7 @@ impl Ctx {
                     let result = runner.run(&strategy, |case| {
                         let mut wb = wcell.borrow_mut();
                         journal_case(self.prop, prop.name(), &case);
-                        let v = prop.check(&mut **wb, &case);
+                        let v = guarded_check(prop, &mut **wb, &case);
                         wb.record(&v, sample_every);
                         if self.handle_verdict(&mut **wb, &v, false) {
                             wb.frozen = true;
@@ -632,7 +644,7 @@ impl Ctx {
                         Ok(()) => {}
                         Err(TestError::Fail(_reason, minimal)) => {
                             w.frozen = true;
-                            let v = prop.check(&mut w, &minimal);
+                            let v = guarded_check(prop, &mut w, &minimal);
                             let msg = match &v.res {
                                 Res::Fail { msg, .. } => msg.clone(),
                                 other => format!("(shrunk case no longer fails: {:?})", other),
@@ -680,7 +692,7 @@ impl Ctx {
                     while i < n {
                         let case = &cases[i];
                         journal_case(self.prop, prop.name(), case);
-                        let v = prop.check(&mut w, case);
+                        let v = guarded_check(prop, &mut w, case);
                         if dump {
                             eprintln!("DUMP {}", json!({"sub": prop.name(), "part": label, "rendered": v.rendered, "case": serde_json::to_value(case).unwrap_or(J::Null)}));
                         }
